@@ -259,6 +259,7 @@ def main(tier, seed):
     # ---- the end of a record as the first pass sees it: SkipInstance() vs coq/P21Skip.v on every short text over
     # the characters that matter to it (apostrophe, slash, asterisk, semicolon, backslash S for the page escape, NUL, blank)
     skip_cmp = skip_dis = skip_wf = 0
+    sep_cmp = sep_dis = sep_wf = 0
     try:
         hlex = build_harness(bdir, "h_lex")
         alpha = ["'", "/", "*", ";", "a", " ", "\\", "S"]
@@ -298,6 +299,38 @@ def main(tier, seed):
                 if not (a[1] == "1" and int(a[4]) == len(t) - mm.end()):
                     res.violation("SkipInstance() does not end the well-formed record %r at its semicolon: %s (%d bytes should be left)" % (t[:60], " ".join(a), len(t) - mm.end()),
                                   {"input_hex": t.encode("latin-1").hex(), "replay": "echo 'K %s' | %s" % (t.encode("latin-1").hex(), hlex)})
+        # ---- what is skipped between two tokens: ReadTokenSeparator() vs coq/P21Skip.v token_separator
+        salpha = ["/", "*", " ", "\\", "F", "N", "a", "\n"]
+        stexts = []
+        for n_ in range(0, (6 if tier == "quick" else 7)):
+            for tup in itertools.product(salpha, repeat=n_):
+                stexts.append("".join(tup))
+        stexts += [" /* c */ /**/\n#1", "/*" + "c" * 9000 + "*/#1=", "/* a * / b *//*/ x */ \t#2", "/* never closed #1=A();", "/ /*x*/#1", "/**/*,"]
+        reqs = ["P " + t.encode("latin-1").hex() for t in stexts]
+        rci, oi, _e = sh([hlex], input="\n".join(reqs).encode() + b"\n", timeout=1800)
+        rcm, om, _e = sh([driver("drv_c09")], input="\n".join(reqs).encode() + b"\n", timeout=1800)
+        li, lm = [l_ for l_ in oi.split("\n") if l_.startswith("P ")], om.split("\n")      # the reader also prints messages of its own
+        if rci != 0:
+            res.violation("h_lex died on the ReadTokenSeparator stream (status %d)" % rci, {}, found_input=False)
+        sepre = re.compile(r"^(?:[ \n\t\r\f\v]|/\*(?:[^*]|\*(?!/))*\*/)*(?=[^ \n\t\r\f\v/\\])", re.S)
+        for k_, t in enumerate(stexts):
+            evals += 1
+            sep_cmp += 1
+            a = li[k_].split() if k_ < len(li) else []
+            m = lm[k_].split() if k_ < len(lm) else []
+            if len(a) < 5 or len(m) < 5 or a[4] != m[4]:
+                sep_dis += 1
+                if sep_dis <= 5:
+                    res.violation("model P21Skip.v and ReadTokenSeparator() disagree on %r: reader %s, model %s" % (t, " ".join(a), " ".join(m)),
+                                  {"input_hex": t.encode("latin-1").hex(), "replay": "echo 'P %s' | %s" % (t.encode("latin-1").hex(), hlex),
+                                   "theorem_or_correspondence": "correspondence C01: coq/P21Skip.v token_separator vs read_func.cc ReadTokenSeparator"}, found_input=False)
+                continue
+            mm = sepre.match(t)
+            if mm:
+                sep_wf += 1
+                if int(a[4]) != len(t) - mm.end():
+                    res.violation("ReadTokenSeparator() does not stop at the token after white space and comments in %r: %s bytes left, expected %d" % (t[:60], a[4], len(t) - mm.end()),
+                                  {"input_hex": t.encode("latin-1").hex(), "replay": "echo 'P %s' | %s" % (t.encode("latin-1").hex(), hlex)})
     except BuildError as e:
         res.violation("build failed: %s" % e, {"error": str(e)}, found_input=False)
     shutil.rmtree(wdir, ignore_errors=True)
@@ -318,6 +351,7 @@ def main(tier, seed):
         "traces_validated_against_impl": evals,
         "feature_histogram": feature_hist,
         "skip_instance_stream": {"texts": skip_cmp, "well_formed_records": skip_wf, "disagreements": skip_dis},
+        "token_separator_stream": {"texts": sep_cmp, "separators_followed_by_a_token": sep_wf, "disagreements": sep_dis},
         "oracle_failures": fails,
         "unproved_clauses": ["byte-level reader/writer of whole files (L3/L4) is covered by the oracle only",
                              "reals with more than 15 significant digits: compared numerically to 15 digits"],
